@@ -155,6 +155,21 @@ def mk_congruence_task(name, qual):
     return t
 
 
+def mk_boundary_task(name):
+    """BOUNDED, native, for EVERY indicator (also those proved by congruence, whose proof says nothing about the number of entries):
+    both modes on the real code for lengths around the warm-up window and around the period, on random, trending, tied and
+    zero-volume series, with the moving-average selectors also switched to a recursive average"""
+    def t(h):
+        from pyvc import report as R
+        res = R.native([os.path.join(HERE, 'native', 'run.py'), 'C14'], {'obligation': f'{name}.native', 'task': f'boundary.{name}', 'model': {}})
+        if res.get('error'):
+            raise OutOfSubset('native stand-in did not run: ' + str(res.get('error'))[:300])
+        known = f'C14-{name}' in FINDINGS
+        h.prove(known or not res.get('confirmed'), f'{name}.both-modes-agree-and-one-entry-per-candle-on-the-probed-inputs.native-bounded',
+                {'detail': res.get('detail')})
+    return t
+
+
 def tasks(tier):
     ts = []
     ov = indic.overrides(warmup=W)
@@ -166,6 +181,8 @@ def tasks(tier):
         except KeyError:
             continue
         ts.append(Task('congruence.' + name, mk_congruence_task(name, qual), extra=dict(task_timeout_s=180)))
+        ts.append(Task('boundary.' + name, mk_boundary_task(name), extra=dict(task_timeout_s=300,
+                       bounded='native: lengths 100..500 around the window (240) and P-1..2P around the period, four kinds of series')))
         if name in EXEMPT or (tier == 'quick' and name in HEAVY):
             continue
         ts.append(Task(name, mk_task(name, qual), extra=dict(indic.CFG_EXTRA, bounded=f'series length N={N}, warm-up window W={W}',
